@@ -84,7 +84,10 @@ sqf::runtime::value sqf::parser::assembly::parser::get_value(::sqf::runtime::run
             return ::sqf::runtime::value(std::make_shared<::sqf::types::d_array>(values));
         }
         break;
+        default:
+            break;
     }
+    return {};
 }
 void ::sqf::parser::assembly::parser::to_assembly(::sqf::runtime::runtime& runtime, std::string_view contents, const ::sqf::parser::assembly::bison::astnode& node, std::vector<::sqf::runtime::instruction::sptr>& set)
 {
@@ -92,27 +95,31 @@ void ::sqf::parser::assembly::parser::to_assembly(::sqf::runtime::runtime& runti
     switch (node.kind)
     {
         case bison::astkind::ASSIGN_TO: {
-            auto inst = std::make_shared<::sqf::opcodes::assign_to>(::sqf::types::d_string::from_sqf(node.children[1].token.contents));
+            auto inst = std::make_shared<::sqf::opcodes::assign_to>(::sqf::types::d_string::from_sqf(node.children[0].token.contents));
             inst->diag_info({ node.token.line, node.token.column, node.token.offset, { *node.token.path, {} }, create_code_segment(contents, node.token.offset, node.token.contents.length()) });
             set.push_back(inst);
         } break;
         case bison::astkind::ASSIGN_TO_LOCAL: {
-            auto inst = std::make_shared<::sqf::opcodes::assign_to_local>(::sqf::types::d_string::from_sqf(node.children[1].token.contents));
+            auto inst = std::make_shared<::sqf::opcodes::assign_to_local>(::sqf::types::d_string::from_sqf(node.children[0].token.contents));
             inst->diag_info({ node.token.line, node.token.column, node.token.offset, { *node.token.path, {} }, create_code_segment(contents, node.token.offset, node.token.contents.length()) });
             set.push_back(inst);
         } break;
         case bison::astkind::GET_VARIABLE: {
-            auto inst = std::make_shared<::sqf::opcodes::get_variable>(::sqf::types::d_string::from_sqf(node.children[1].token.contents));
+            auto inst = std::make_shared<::sqf::opcodes::get_variable>(::sqf::types::d_string::from_sqf(node.children[0].token.contents));
             inst->diag_info({ node.token.line, node.token.column, node.token.offset, { *node.token.path, {} }, create_code_segment(contents, node.token.offset, node.token.contents.length()) });
             set.push_back(inst);
         } break;
         case bison::astkind::CALL_BINARY: {
+            // operators are registered, and looked up, under their lower-case name
             auto str = std::string(node.children[0].token.contents);
+            std::transform(str.begin(), str.end(), str.begin(), [](char c) { return (char)std::tolower((int)(unsigned char)c); });
             if (!runtime.sqfop_exists_binary(str))
             {
+                // no script is running while the text is translated: the location is the one of the instruction
                 __log(logmessage::runtime::InvalidAssemblyInstruction(
-                    runtime.context_active().current_frame().diag_info_from_position(),
+                    LogLocationInfo(*node.token.path, node.token.line, node.token.column),
                     str));
+                m_failed = true;
             }
             else
             {
@@ -125,12 +132,16 @@ void ::sqf::parser::assembly::parser::to_assembly(::sqf::runtime::runtime& runti
             }
         } break;
         case bison::astkind::CALL_UNARY: {
-            auto inst = std::make_shared<::sqf::opcodes::call_unary>(std::string(node.children[1].token.contents));
+            auto str = std::string(node.children[0].token.contents);
+            std::transform(str.begin(), str.end(), str.begin(), [](char c) { return (char)std::tolower((int)(unsigned char)c); });
+            auto inst = std::make_shared<::sqf::opcodes::call_unary>(str);
             inst->diag_info({ node.token.line, node.token.column, node.token.offset, { *node.token.path, {} }, create_code_segment(contents, node.token.offset, node.token.contents.length()) });
             set.push_back(inst);
         } break;
         case bison::astkind::CALL_NULAR: {
-            auto inst = std::make_shared<::sqf::opcodes::call_nular>(std::string(node.children[1].token.contents));
+            auto str = std::string(node.children[0].token.contents);
+            std::transform(str.begin(), str.end(), str.begin(), [](char c) { return (char)std::tolower((int)(unsigned char)c); });
+            auto inst = std::make_shared<::sqf::opcodes::call_nular>(str);
             inst->diag_info({ node.token.line, node.token.column, node.token.offset, { *node.token.path, {} }, create_code_segment(contents, node.token.offset, node.token.contents.length()) });
             set.push_back(inst);
         } break;
@@ -139,21 +150,16 @@ void ::sqf::parser::assembly::parser::to_assembly(::sqf::runtime::runtime& runti
             inst->diag_info({ node.token.line, node.token.column, node.token.offset, { *node.token.path, {} }, create_code_segment(contents, node.token.offset, node.token.contents.length()) });
             set.push_back(inst);
         } break;
-        case bison::astkind::PUSH:
-
+        case bison::astkind::PUSH: {
+            auto inst = std::make_shared<::sqf::opcodes::push>(get_value(runtime, contents, node.children[0]));
+            inst->diag_info({ node.token.line, node.token.column, node.token.offset, { *node.token.path, {} }, create_code_segment(contents, node.token.offset, node.token.contents.length()) });
+            set.push_back(inst);
+        } break;
         default:
-        {
-            bison::astnode previous_node;
-            for (size_t i = 0; i < node.children.size(); i++)
+        { // a list of instructions: the end of a statement is an instruction of its own (endStatement), nothing is added
+            for (auto& child : node.children)
             {
-                if (i != 0)
-                {
-                    auto inst = std::make_shared<::sqf::opcodes::end_statement>();
-                    inst->diag_info({ previous_node.token.line, previous_node.token.column + previous_node.token.contents.length(), previous_node.token.offset, { *previous_node.token.path, {} }, create_code_segment(contents, previous_node.token.offset, previous_node.token.contents.length()) });
-                    set.push_back(inst);
-                }
-                previous_node = node.children[i];
-                to_assembly(runtime, contents, previous_node, set);
+                to_assembly(runtime, contents, child, set);
             }
         }
     }
@@ -162,8 +168,9 @@ void ::sqf::parser::assembly::parser::to_assembly(::sqf::runtime::runtime& runti
 bool sqf::parser::assembly::parser::get_tree(::sqf::runtime::runtime& runtime, ::sqf::parser::assembly::tokenizer& t, ::sqf::parser::assembly::bison::astnode* out)
 {
     ::sqf::parser::assembly::bison::parser p(t, *out, *this, runtime);
+    m_failed = false;
     bool success = p.parse() == 0;
-    return success;
+    return success && !m_failed;
 }
 
 std::optional<sqf::runtime::instruction_set> sqf::parser::assembly::parser::parse(::sqf::runtime::runtime& runtime, std::string contents, ::sqf::runtime::fileio::pathinfo file)
@@ -172,13 +179,18 @@ std::optional<sqf::runtime::instruction_set> sqf::parser::assembly::parser::pars
     ::sqf::parser::assembly::bison::astnode res;
     ::sqf::parser::assembly::bison::parser p(t, res, *this, runtime);
     // p.set_debug_level(1);
+    m_failed = false;
     bool success = p.parse() == 0;
-    if (!success)
-    {
+    if (!success || m_failed)
+    { // a syntax error was reported, whether the parser recovered from it or not
         return {};
     }
     std::vector<::sqf::runtime::instruction::sptr> vec;
     to_assembly(runtime, contents, res, vec);
+    if (m_failed)
+    {
+        return {};
+    }
     return vec;
 }
 
@@ -187,6 +199,7 @@ bool ::sqf::parser::assembly::parser::check_syntax(::sqf::runtime::runtime& runt
     tokenizer t(contents.begin(), contents.end(), file.physical);
     ::sqf::parser::assembly::bison::astnode res;
     ::sqf::parser::assembly::bison::parser p(t, res, *this, runtime);
+    m_failed = false;
     bool success = p.parse() == 0;
-    return success;
+    return success && !m_failed;
 }
